@@ -411,7 +411,7 @@ def run_tt3(sim, params):
     desc = {"h": "tt3", "commands": []}
     errors = []
     for i in range(sim.randint("ncmd", 1, 30)):
-        g = sim.wpick("tt3.gen", [(3, "valid-mut"), (2, "random"), (2, "short"), (2, "lists")])
+        g = sim.wpick("tt3.gen", [(3, "valid-mut"), (2, "random"), (2, "short"), (2, "lists"), (2, "readmany")])
         code = sim.pick("tt3.code", [0x00, 0x04, 0x06, 0x08, 0x0C, 0x02, 0xFF])
         if g == "random":
             body = sim.bytes("tt3.r", sim.pick("tt3.rl", [0, 1, 2, 9, 10, 11, 12, 40]), tag=i)
@@ -420,6 +420,14 @@ def run_tt3(sim, params):
             cmd = (bytes([0]) + bytes([code]) + idm)[:sim.randint("tt3.cut", 0, 11)]
             if cmd:
                 cmd = bytes([len(cmd)]) + cmd[1:]
+        elif g == "readmany":
+            # well-formed Read Without Encryption with up to 15 block list elements of which one names a block the
+            # service does not have (at any position of the list)
+            nblk = sim.randint("rm.n", 1, 15)
+            bad = sim.choose("rm.bad", nblk + 1)          # == nblk: all readable
+            els = b"".join(bytes([0x80, (16 + j if j == bad else j % 16)]) for j in range(nblk))
+            cmd = bytes([14 + len(els), 0x06]) + idm + b"\x01\x0b\x00" + bytes([nblk]) + els
+            code = 0x06
         elif g == "lists":
             nsvc = sim.pick("nsvc", [0, 1, 2, 16, 255])
             body = bytes([nsvc]) + b"".join(sim.pick("svc", [b"\x09\x00", b"\x0b\x00", b"\xff\xff"]) for _ in range(min(nsvc, 3)))
